@@ -42,11 +42,28 @@
 //!              Every script runs on its own store; all scripts are tasks of ONE current-thread runtime,
 //!              so the sleeps overlap (the only real waiting in this set, ~3 x 2.1 s).  All checks of a
 //!              script are folded into ONE finding of C19.gc.aged_sequences.
+//!  * opts    : EXTENSION (obligation C19.options.delete): everywhere else artifacts are written with `PutOptions::new()`
+//!              (default content type, no tags, no links, no custom metadata).  Here the script
+//!              put(sibling S: content P, text/plain, tag t1, link e1, meta k) ; write(target T) ; [mutate T's metadata] ;
+//!              delete(unknown id) ; delete(T) ; delete(T) ; gc ; full_gc ; delete(S) ; gc ; full_gc runs for EVERY combination of
+//!              content type {default, "", "text/plain"} x tags {none, t1, t1 twice, t1+t2} x links {none, e1, e1 twice} x custom
+//!              metadata {none, one key} x way of writing {put, writer cs+1 pieces, writer single bytes} x content {P = all chunks
+//!              shared with S, Q = two chunks shared, E = ZERO bytes through the writer (without a `write` call / with one empty
+//!              `write`)} x chunk size {1, 4, 1024}, and (chunk size 4, content Q) for every combination x metadata mutation
+//!              {update_metadata(content_type "" / image/png), tag new / present, untag present / absent, link new / present,
+//!              unlink present / absent, set_meta + update_metadata(filename, delete_meta, set_meta), all of them}.
+//!              After EVERY step the whole view is compared with a ghost: list, by_tag(t1..t3), by_content_type (4 types),
+//!              artifacts_for(e1..e3) as id sets; per artifact metadata (content type, tag set, link set, custom map, size,
+//!              chunk count, checksum, filename), links, get, reader, exists, verify; stored `_refs` of every chunk = number of
+//!              references; stats.  delete(existing) must be Ok, delete(unknown) / the second delete Err(NotFound) with the
+//!              whole store (every key, every record) unchanged; gc (every chunk back-dated) / full_gc remove no referenced
+//!              chunk and leave no unreferenced one; after both deletes no chunk and no query result is left.
+//!              All checks of a script are folded into ONE finding of C19.options.delete.
 use crate::fw::{Report, Rng, Tier};
 use serde_json::{json, Value};
 use std::collections::{BTreeMap, BTreeSet};
 use std::time::Duration;
-use tensor_blob::{compute_hash, verify_chunk, BlobConfig, BlobError, BlobStore, Chunk, Chunker, PutOptions};
+use tensor_blob::{compute_hash, verify_chunk, BlobConfig, BlobError, BlobStore, Chunk, Chunker, MetadataUpdates, PutOptions};
 use tensor_store::{ScalarValue, TensorStore, TensorValue};
 use tokio::runtime::Runtime;
 
@@ -67,6 +84,8 @@ const INFLIGHT: bool = true;
 /// EXTENSION: sequences on the real clock with a non-zero gc_min_age (see the `aged` domain)
 const O_AGED: &str = "C19.gc.aged_sequences";
 const AGED_MIN_AGE_MS: u64 = 1000;
+/// EXTENSION: the put / stream-write / delete / gc / verify script over artifacts written with options and metadata (see the `opts` domain)
+const O_OPT: &str = "C19.options.delete";
 
 struct Finding { ob: &'static str, ok: bool, detail: String }
 
@@ -622,6 +641,250 @@ fn damages(cs: usize, x: char) -> Vec<String> {
     out
 }
 
+// ---------------------------------------------------------------- options / metadata x delete (C19.options.delete)
+
+const OPT_TAGS: [&str; 3] = ["t1", "t2", "t3"];
+const OPT_LINKS: [&str; 3] = ["e1", "e2", "e3"];
+const OPT_CTS: [&str; 4] = ["", "text/plain", "image/png", "application/octet-stream"];
+const OPT_MUTS: [&str; 13] = ["none", "ct_empty", "ct_png", "tag_t3", "tag_t1", "untag_t1", "untag_t3", "link_e3", "link_e1", "unlink_e1", "unlink_e3", "meta", "combo"];
+const UNKNOWN_ID: &str = "00000000-0000-4000-8000-000000000000";
+
+#[derive(Clone)]
+struct OptCase { cs: usize, batch: usize, ct: Option<String>, tags: Vec<String>, links: Vec<String>, meta: bool, mode: char, content: char, mutation: String }
+
+impl OptCase {
+    fn json(&self) -> Value {
+        json!({"kind": "opts", "cs": self.cs, "batch": self.batch, "ct": self.ct, "tags": self.tags, "links": self.links, "meta": self.meta,
+               "mode": self.mode.to_string(), "content": self.content.to_string(), "mut": self.mutation})
+    }
+    fn from_json(v: &Value) -> Option<Self> {
+        let strs = |k: &str| -> Option<Vec<String>> { v[k].as_array()?.iter().map(|s| s.as_str().map(String::from)).collect() };
+        Some(Self { cs: v["cs"].as_u64()? as usize, batch: v.get("batch").and_then(Value::as_u64).unwrap_or(100) as usize, ct: v["ct"].as_str().map(String::from),
+                    tags: strs("tags")?, links: strs("links")?, meta: v["meta"].as_bool().unwrap_or(false),
+                    mode: v["mode"].as_str()?.chars().next()?, content: v["content"].as_str()?.chars().next()?, mutation: v["mut"].as_str().unwrap_or("none").to_string() })
+    }
+    fn options(&self) -> PutOptions {
+        let mut o = PutOptions::new();
+        if let Some(ct) = &self.ct { o = o.with_content_type(ct.clone()); }
+        for t in &self.tags { o = o.with_tag(t.clone()); }
+        for l in &self.links { o = o.with_link(l.clone()); }
+        if self.meta { o = o.with_meta("k", "v"); }
+        o
+    }
+}
+
+/// what the metadata queries must show for one artifact (tags / links are SETS: writing the same tag twice is one tag)
+#[derive(Clone)]
+struct MetaGhost { id: String, data: Vec<u8>, keys: Vec<String>, filename: String, ct: String, tags: BTreeSet<String>, links: BTreeSet<String>, custom: BTreeMap<String, String> }
+
+/// mode A: put; B: writer fed pieces of cs+1 (no `write` call at all for empty data); C: writer fed single bytes (4099 if large);
+/// D: writer fed the whole data in one call (one EMPTY `write` for empty data)
+async fn put_with(bs: &BlobStore, mode: char, name: &str, data: &[u8], cs: usize, opts: PutOptions) -> Result<String, BlobError> {
+    if mode == 'A' { return bs.put(name, data, opts).await; }
+    let mut w = bs.writer(name, opts).await?;
+    match mode {
+        'D' => w.write(data).await?,
+        _ => { let piece = if mode == 'B' { cs + 1 } else if data.len() <= 64 { 1 } else { 4099 }; for p in data.chunks(piece) { w.write(p).await?; } },
+    }
+    w.finish().await
+}
+
+fn full_view(store: &TensorStore) -> BTreeMap<String, Option<tensor_store::TensorData>> { store.scan("").into_iter().map(|k| { let t = store.get(&k).ok(); (k, t) }).collect() }
+
+fn id_set(r: Result<Vec<String>, BlobError>) -> Result<BTreeSet<String>, BlobError> { r.map(|v| v.into_iter().collect()) }
+
+/// the whole observable view against the ghost: every query, every artifact's metadata / bytes / integrity, the refcounts
+async fn opts_view(st: &mut Step, at: &str, bs: &BlobStore, arts: &[&MetaGhost]) {
+    let ids: BTreeSet<String> = arts.iter().map(|a| a.id.clone()).collect();
+    let l = id_set(bs.list(None).await);
+    st.req(O_OPT, l.as_ref() == Ok(&ids), || format!("{at}: list(None) = {l:?}, expected exactly the {} existing artifacts {ids:?}", ids.len()));
+    for t in OPT_TAGS {
+        let want: BTreeSet<String> = arts.iter().filter(|a| a.tags.contains(t)).map(|a| a.id.clone()).collect();
+        let got = id_set(bs.by_tag(t).await);
+        st.req(O_OPT, got.as_ref() == Ok(&want), || format!("{at}: by_tag({t}) = {got:?}, expected {want:?}"));
+    }
+    for ct in OPT_CTS {
+        let want: BTreeSet<String> = arts.iter().filter(|a| a.ct == ct).map(|a| a.id.clone()).collect();
+        let got = id_set(bs.by_content_type(ct).await);
+        st.req(O_OPT, got.as_ref() == Ok(&want), || format!("{at}: by_content_type({ct:?}) = {got:?}, expected {want:?}"));
+    }
+    for e in OPT_LINKS {
+        let want: BTreeSet<String> = arts.iter().filter(|a| a.links.contains(e)).map(|a| a.id.clone()).collect();
+        let got = id_set(bs.artifacts_for(e).await);
+        st.req(O_OPT, got.as_ref() == Ok(&want), || format!("{at}: artifacts_for({e}) = {got:?}, expected {want:?}"));
+    }
+    for a in arts {
+        match bs.metadata(&a.id).await {
+            Ok(m) => {
+                let (tags, links): (BTreeSet<String>, BTreeSet<String>) = (m.tags.iter().cloned().collect(), m.linked_to.iter().cloned().collect());
+                let custom: BTreeMap<String, String> = m.custom.clone().into_iter().collect();
+                st.req(O_OPT, m.id == a.id && m.filename == a.filename && m.content_type == a.ct && tags == a.tags && links == a.links && custom == a.custom && m.size == a.data.len() && m.chunk_count == a.keys.len() && m.checksum == compute_hash(&a.data),
+                       || format!("{at}: metadata({}) = filename {:?} content_type {:?} tags {:?} links {:?} custom {:?} size {} chunks {}, expected {:?} {:?} {:?} {:?} {:?} {} {}",
+                                  a.filename, m.filename, m.content_type, m.tags, m.linked_to, m.custom, m.size, m.chunk_count, a.filename, a.ct, a.tags, a.links, a.custom, a.data.len(), a.keys.len()));
+            },
+            Err(e) => st.req(O_OPT, false, || format!("{at}: metadata(existing {}) = Err({e:?})", a.filename)),
+        }
+        let lk = id_set(bs.links(&a.id).await);
+        st.req(O_OPT, lk.as_ref() == Ok(&a.links), || format!("{at}: links({}) = {lk:?}, expected {:?}", a.filename, a.links));
+        let got = bs.get(&a.id).await;
+        st.req(O_OPT, got.as_deref() == Ok(&a.data[..]), || format!("{at}: artifact {} ({} bytes) reads back {:?}", a.filename, a.data.len(), got.as_ref().map(|v| v.len())));
+        match bs.reader(&a.id).await {
+            Ok(mut rd) => {
+                let all = rd.read_all().await;
+                st.req(O_OPT, rd.total_size() == a.data.len() && rd.chunk_count() == a.keys.len() && all.as_deref() == Ok(&a.data[..]), || format!("{at}: reader({}) total_size {} chunk_count {} read_all {:?}", a.filename, rd.total_size(), rd.chunk_count(), all.as_ref().map(|v| v.len())));
+            },
+            Err(e) => st.req(O_OPT, false, || format!("{at}: reader(existing {}) = Err({e:?})", a.filename)),
+        }
+        let (ex, vf) = (bs.exists(&a.id).await, bs.verify(&a.id));
+        st.req(O_OPT, ex == Ok(true) && vf == Ok(true), || format!("{at}: exists({}) = {ex:?}, verify = {vf:?}", a.filename));
+    }
+    let mut ghost: BTreeMap<String, i64> = BTreeMap::new();
+    for a in arts { for k in &a.keys { *ghost.entry(k.clone()).or_insert(0) += 1; } }
+    let view = chunk_view(bs.store());
+    for (k, r) in &view { let g = ghost.get(k).copied().unwrap_or(0); st.req(O_OPT, *r == Some(g), || format!("{at}: chunk {} stored _refs {r:?} but {g} references exist", short(k))); }
+    for k in ghost.keys() { st.req(O_OPT, view.contains_key(k), || format!("{at}: chunk {} of an existing artifact is not stored", short(k))); }
+    match bs.stats().await {
+        Ok(s) => st.req(O_OPT, s.artifact_count == arts.len() && s.total_bytes == arts.iter().map(|a| a.data.len()).sum::<usize>(), || format!("{at}: stats {s:?} with {} artifacts", arts.len())),
+        Err(e) => st.req(O_OPT, false, || format!("{at}: stats() = Err({e:?})")),
+    }
+}
+
+/// collection step of the script: `gc` back-dates every chunk first (min age is 1 h), like the `seq` domain
+async fn opts_collect(st: &mut Step, op: &str, bs: &BlobStore, arts: &[&MetaGhost], batch: usize) {
+    let store = bs.store();
+    let before = chunk_view(store);
+    let r = if op == "gc" { age_chunks(store); bs.gc().await.map(|_| ()) } else { bs.full_gc().await.map(|_| ()) };
+    st.req(O_OPT, r.is_ok(), || format!("{op}() = {r:?}"));
+    let referenced: BTreeSet<&String> = arts.iter().flat_map(|a| a.keys.iter()).collect();
+    let after = chunk_view(store);
+    for k in before.keys().filter(|k| !after.contains_key(*k)) { st.req(O_OPT, !referenced.contains(k), || format!("{op} removed chunk {} which an existing artifact references", short(k))); }
+    st.req(O_OPT, after.keys().all(|k| before.contains_key(k)), || format!("{op} created chunk keys"));
+    if op == "full_gc" || before.len() <= batch {
+        let left: Vec<&String> = after.keys().filter(|k| !referenced.contains(k)).collect();
+        st.req(O_OPT, left.is_empty(), || format!("{op} left {} chunks that no existing artifact references (every chunk is older than gc_min_age)", left.len()));
+    }
+}
+
+/// put sibling S (content P, fixed options) ; write T with the options of the case ; [mutate T's metadata] ; delete(unknown) ;
+/// delete(T) ; delete(T) again ; gc ; full_gc ; delete(S) ; gc ; full_gc -- the whole view is compared with the ghost after every step
+async fn exec_opts(ts: TensorStore, c: &OptCase) -> Finding {
+    let mut st = Step::default();
+    st.touch(O_OPT);
+    let fold = |st: Step| { let mut out = vec![]; st.into_findings("", &mut out); out.into_iter().next().unwrap_or(Finding { ob: O_OPT, ok: true, detail: String::new() }) };
+    assert!(ts.is_empty() && ts.scan("").is_empty(), "harness: script must start on an empty store");
+    let bs = match new_blob_on(ts, c.cs, c.batch).await { Ok(b) => b, Err(e) => { st.req(O_OPT, false, || format!("BlobStore::new(chunk {}) = Err({e:?})", c.cs)); return fold(st); } };
+    let store = bs.store().clone();
+    let default_ct = BlobConfig::new().default_content_type;
+    // sibling
+    let sdata = content('P', c.cs);
+    let sopts = PutOptions::new().with_content_type("text/plain").with_tag("t1").with_link("e1").with_meta("k", "v");
+    let sib = match bs.put("s.bin", &sdata, sopts).await {
+        Ok(id) => MetaGhost { id, keys: ghost_keys(c.cs, &sdata), data: sdata, filename: "s.bin".into(), ct: "text/plain".into(), tags: ["t1".to_string()].into(), links: ["e1".to_string()].into(), custom: [("k".to_string(), "v".to_string())].into() },
+        Err(e) => { st.req(O_OPT, false, || format!("put(sibling) = Err({e:?})")); return fold(st); },
+    };
+    opts_view(&mut st, "after put(sibling)", &bs, &[&sib]).await;
+    // target
+    let tdata = content(c.content, c.cs);
+    let written = put_with(&bs, c.mode, "t.bin", &tdata, c.cs, c.options()).await;
+    let mut tgt = match written {
+        Ok(id) => MetaGhost { id, keys: ghost_keys(c.cs, &tdata), data: tdata, filename: "t.bin".into(), ct: c.ct.clone().unwrap_or(default_ct), tags: c.tags.iter().cloned().collect(), links: c.links.iter().cloned().collect(),
+                              custom: if c.meta { [("k".to_string(), "v".to_string())].into() } else { BTreeMap::new() } },
+        Err(e) => { st.req(O_OPT, false, || format!("writing the target ({} bytes, mode {}) = Err({e:?})", tdata.len(), c.mode)); return fold(st); },
+    };
+    st.req(O_OPT, tgt.id != sib.id, || "two artifacts got the same id".to_string());
+    opts_view(&mut st, "after writing the target", &bs, &[&sib, &tgt]).await;
+    // metadata mutation through the public API
+    if c.mutation != "none" {
+        let id = tgt.id.clone();
+        let steps: Vec<&str> = if c.mutation == "combo" { vec!["tag_t3", "link_e3", "ct_png", "untag_t1", "unlink_e1", "meta"] } else { vec![c.mutation.as_str()] };
+        for m in steps {
+            let r = match m {
+                "ct_empty" => { tgt.ct = String::new(); bs.update_metadata(&id, MetadataUpdates::new().with_content_type("")).await },
+                "ct_png" => { tgt.ct = "image/png".into(); bs.update_metadata(&id, MetadataUpdates::new().with_content_type("image/png")).await },
+                "meta" => {
+                    tgt.custom.insert("k2".into(), "v2".into()); tgt.custom.remove("k"); tgt.custom.insert("k3".into(), "v3".into()); tgt.filename = "renamed.bin".into();
+                    match bs.set_meta(&id, "k2", "v2").await { Ok(()) => bs.update_metadata(&id, MetadataUpdates::new().with_filename("renamed.bin").delete_meta("k").set_meta("k3", "v3")).await, e => e }
+                },
+                _ => {
+                    let (op, arg) = m.split_once('_').expect("harness: mutation");
+                    match op {
+                        "tag" => { tgt.tags.insert(arg.into()); bs.tag(&id, arg).await },
+                        "untag" => { tgt.tags.remove(arg); bs.untag(&id, arg).await },
+                        "link" => { tgt.links.insert(arg.into()); bs.link(&id, arg).await },
+                        "unlink" => { tgt.links.remove(arg); bs.unlink(&id, arg).await },
+                        _ => panic!("harness: mutation {m}"),
+                    }
+                },
+            };
+            st.req(O_OPT, r.is_ok(), || format!("{m} on the existing target = {r:?}"));
+        }
+        opts_view(&mut st, &format!("after {}", c.mutation), &bs, &[&sib, &tgt]).await;
+    }
+    // delete of an unknown id: Err, nothing changes
+    let before = full_view(&store);
+    let r = bs.delete(UNKNOWN_ID).await;
+    st.req(O_OPT, matches!(r, Err(BlobError::NotFound(_))), || format!("delete(unknown id) = {r:?}, expected Err(NotFound)"));
+    st.req(O_OPT, full_view(&store) == before, || "delete(unknown id) changed the store".to_string());
+    // delete of the existing target: Ok, gone from every query, the sibling untouched
+    let r = bs.delete(&tgt.id).await;
+    st.req(O_OPT, r.is_ok(), || format!("delete(existing target) = {r:?}, expected Ok"));
+    let (ex, g, md, lk, vf) = (bs.exists(&tgt.id).await, bs.get(&tgt.id).await, bs.metadata(&tgt.id).await, bs.links(&tgt.id).await, bs.verify(&tgt.id));
+    st.req(O_OPT, ex == Ok(false) && matches!(g, Err(BlobError::NotFound(_))) && md.is_err() && lk.is_err() && !matches!(vf, Ok(true)),
+           || format!("after delete: exists = {ex:?}, get = {:?}, metadata = {:?}, links = {lk:?}, verify = {vf:?}", g.as_ref().map(|v| v.len()), md.as_ref().map(|m| m.id.clone())));
+    opts_view(&mut st, "after delete(target)", &bs, &[&sib]).await;
+    // second delete: Err, nothing changes
+    let before = full_view(&store);
+    let r = bs.delete(&tgt.id).await;
+    st.req(O_OPT, matches!(r, Err(BlobError::NotFound(_))), || format!("second delete of the target = {r:?}, expected Err(NotFound)"));
+    st.req(O_OPT, full_view(&store) == before, || "the second delete changed the store".to_string());
+    // collections never hurt the sibling that shares content
+    for op in ["gc", "full_gc"] {
+        opts_collect(&mut st, op, &bs, &[&sib], c.batch).await;
+        opts_view(&mut st, &format!("after delete(target) .. {op}"), &bs, &[&sib]).await;
+    }
+    let r = bs.delete(&sib.id).await;
+    st.req(O_OPT, r.is_ok(), || format!("delete(sibling) = {r:?}"));
+    opts_view(&mut st, "after delete(sibling)", &bs, &[]).await;
+    for op in ["gc", "full_gc"] {
+        opts_collect(&mut st, op, &bs, &[], c.batch).await;
+        opts_view(&mut st, &format!("after both deletes .. {op}"), &bs, &[]).await;
+    }
+    fold(st)
+}
+
+fn opts_cases(thorough: bool) -> Vec<OptCase> {
+    let s = |a: &[&str]| a.iter().map(|x| (*x).to_string()).collect::<Vec<String>>();
+    let mut combos = vec![];
+    for ct in [None, Some(""), Some("text/plain")] { for tags in [s(&[]), s(&["t1"]), s(&["t1", "t1"]), s(&["t1", "t2"])] { for links in [s(&[]), s(&["e1"]), s(&["e1", "e1"])] { for meta in [false, true] {
+        combos.push((ct.map(String::from), tags.clone(), links.clone(), meta));
+    } } } }
+    let mut out = vec![];
+    // every combination x way of writing x content shared fully (P) / partly (Q) with the sibling / zero bytes through the writer (E)
+    let css: &[usize] = if thorough { &[1, 4, 1024, 65536] } else { &[1, 4, 1024] };
+    for &cs in css { for (ct, tags, links, meta) in &combos { for (content, modes) in [('P', "ABC"), ('Q', "ABC"), ('E', "BD")] { for mode in modes.chars() {
+        out.push(OptCase { cs, batch: 100, ct: ct.clone(), tags: tags.clone(), links: links.clone(), meta: *meta, mode, content, mutation: "none".into() });
+    } } } }
+    // every combination x every metadata mutation before the delete
+    let mcs: &[usize] = if thorough { &[1, 4, 1024] } else { &[4] };
+    for &cs in mcs { for (i, (ct, tags, links, meta)) in combos.iter().enumerate() { for (j, m) in OPT_MUTS.iter().enumerate().skip(1) {
+        let modes: Vec<char> = if thorough { vec!['A', 'B'] } else { vec![if (i + j) % 2 == 0 { 'A' } else { 'B' }] };
+        for mode in modes { for content in if thorough { vec!['P', 'Q', 'E'] } else { vec!['Q'] } {
+            if content == 'E' && mode == 'A' { continue; }
+            out.push(OptCase { cs, batch: if thorough && i % 3 == 0 { 1 } else { 100 }, ct: ct.clone(), tags: tags.clone(), links: links.clone(), meta: *meta, mode, content, mutation: (*m).to_string() });
+        } }
+    } } }
+    out
+}
+
+fn run_opts(rep: &mut Report, rt: &Runtime, pool: &TensorStore, c: &OptCase) {
+    pool.clear();
+    let mut f = rt.block_on(exec_opts(pool.clone(), c));
+    // a failing script is re-executed on a brand-new store and that result is recorded (so it equals `replay`)
+    if !f.ok { f = rt.block_on(exec_opts(TensorStore::new(), c)); }
+    rep.eval(true);
+    rep.check(f.ob, f.ok, &|| c.json(), &|| f.detail.clone());
+}
+
 // ---------------------------------------------------------------- driver
 
 fn record(rep: &mut Report, findings: Vec<Finding>, case: &dyn Fn() -> Value) {
@@ -764,7 +1027,8 @@ pub fn run(tier: Tier, seed: u64) -> Report {
     let mut rep = Report::new("c19_blob", domain, true,
         &["tensor_blob::Chunker::chunk", "Chunker::chunk_count", "BlobStore::put", "BlobStore::get", "BlobStore::writer", "BlobWriter::write", "BlobWriter::finish",
           "BlobStore::reader", "BlobReader::{read_all,next_chunk,read,verify}", "BlobStore::delete", "BlobStore::exists", "BlobStore::metadata", "BlobStore::gc",
-          "BlobStore::full_gc", "BlobStore::verify", "BlobStore::repair", "BlobStore::stats", "verify_chunk"]);
+          "BlobStore::full_gc", "BlobStore::verify", "BlobStore::repair", "BlobStore::stats", "verify_chunk",
+          "BlobStore::{list,by_tag,by_content_type,artifacts_for,links,update_metadata,set_meta,tag,untag,link,unlink}"]);
     rep.declare(O_PART, "tensor_blob::Chunker::chunk");
     rep.declare(O_PG, "tensor_blob::BlobStore::{put,get,writer,reader}");
     rep.declare(O_DD, "tensor_blob::BlobStore::{put,delete,full_gc}");
@@ -773,6 +1037,7 @@ pub fn run(tier: Tier, seed: u64) -> Report {
     rep.declare(O_VF, "tensor_blob::BlobStore::{verify,repair}");
     if INFLIGHT { rep.declare(O_IF, "tensor_blob::BlobStore::{writer,gc,full_gc,repair} (open writer)"); }
     rep.declare(O_AGED, "tensor_blob::BlobStore::{gc,full_gc,repair} with gc_min_age 1 s on the real clock (GarbageCollector::gc_cycle age branch)");
+    rep.declare(O_OPT, "tensor_blob::BlobStore::{put,writer,delete,gc,full_gc,verify,list,by_tag,by_content_type,artifacts_for,links,metadata,update_metadata,set_meta,tag,untag,link,unlink} (delete_artifact, BlobWriter::finish)");
     let rt = mk_rt();
     let pool = TensorStore::new();
 
@@ -884,6 +1149,14 @@ pub fn run(tier: Tier, seed: u64) -> Report {
         rep.sample(json!({"kind": "aged", "cs": 4, "batch": 100, "min_age_ms": AGED_MIN_AGE_MS, "ops": ["putA:P", "delA", "gc", "putB:Q", "wait", "gc"]}));
     }
 
+    // ---- options / metadata x delete (extension)
+    {
+        let cases = opts_cases(thorough);
+        for c in &cases { run_opts(&mut rep, &rt, &pool, c); }
+        rep.domain.push_str(&format!(" [opts(extension): {} scripts put(S) write(T with options) [mutate] delete(unknown) delete(T) delete(T) gc full_gc delete(S) gc full_gc over content type {{default,\"\",text/plain}} x tags {{-,t1,t1 t1,t1 t2}} x links {{-,e1,e1 e1}} x meta {{-,k}} x {{put,writer cs+1,writer bytes}} x content {{P,Q,E(zero bytes, writer only)}} x cs {{1,4,1024}} + 12 metadata mutations]", cases.len()));
+        rep.sample(json!({"kind": "opts", "cs": 4, "batch": 100, "ct": "", "tags": ["t1", "t1"], "links": ["e1", "e1"], "meta": true, "mode": "B", "content": "E", "mut": "none"}));
+    }
+
     // ---- seeded random long sequences (beyond the exhaustive core)
     if thorough {
         let mut rng = Rng(seed ^ 0xC19);
@@ -943,6 +1216,7 @@ pub fn replay(ob: &str, case: &Value) -> Result<String, String> {
             vec![Finding { ob: O_PG, ok: matches!(r, Err(BlobError::InvalidConfig(_))), detail: "BlobStore::new(chunk_size 0) was accepted".into() }]
         },
         "verify" => rt.block_on(exec_verify(cs, ch("x").ok_or("x missing")?, ch("y"), case["damage"].as_str().ok_or("damage missing")?)),
+        "opts" => vec![rt.block_on(exec_opts(TensorStore::new(), &OptCase::from_json(case).ok_or("malformed opts case")?))],
         k => return Err(format!("unknown case kind {k}")),
     };
     let mine: Vec<&Finding> = findings.iter().filter(|f| f.ob == ob).collect();
